@@ -14,14 +14,20 @@ RULE = ("layer (a): command sequences issued at quiescence — every sequence of
         "length <= 4 (thorough tier: <= 5) over {initialize,start,step,stop,run_up_to(mid),"
         "run_up_to_including(mid),cleanup,end_replication} on a fixed program "
         "(enumerated, indices below N_EXH) plus seeded random sequences of "
-        "length 1-12 with arguments drawn relative to pending event times, "
-        "compared in lock-step with the lifecycle reference; layer (b): "
+        "length 1-12 with arguments drawn relative to pending event times (8 % "
+        "of the initialize commands are preceded by one whose construct_model "
+        "raises), compared in lock-step with the lifecycle reference; layer (b): "
         "overlap — unsettled command scripts (start/stop/step/bounded runs/"
         "poll/sleep/initialize), commands issued from handlers and from "
-        "listeners of chosen notification types, executed with the real run "
-        "thread under seeded pre-emption at line granularity (S-pct, S-site, "
-        "virtual-time speed, oversleep; thorough: stalls and wall-clock "
-        "jumps), judged by stream grammar, quiescent-state invariants, "
+        "listeners of chosen notification types, nested second simulators run "
+        "from handlers, and four directed shapes (pause -> caller polls -> "
+        "step whose handler ends the replication; stalled start then stop; "
+        "pause -> end_replication -> cleanup/initialize at once; start/stop "
+        "alternation), executed with the real run thread under seeded "
+        "pre-emption at line granularity and, in a fifth of the runs, at "
+        "bytecode granularity (S-pct, S-site, budget per run or per command, "
+        "virtual-time speed, oversleep, eager pollers; stalls and wall-clock "
+        "jumps mostly in the thorough tier), judged by stream grammar, quiescent-state invariants, "
         "consequences of accepted commands, after-end behaviour and "
         "exactly-once trace after a drain. non-trivial = (a) at least one "
         "accepted start-like command and one refused command, or (b) at least "
@@ -731,6 +737,13 @@ def execute(case):
         cnt["fault:clock_jump"] = r.det.n_fault_clock_jump
     if r.det.n_stall:
         cnt["fault:stall"] = r.det.n_stall
+    if r.det.n_eager:
+        cnt["fault:eager_poller"] = r.det.n_eager
+    sc_ = case.get("sched") or {}
+    if sc_.get("opcodes"):
+        cnt["granularity:bytecode"] = 1
+    if sc_.get("refill"):
+        cnt["budget:per_command"] = 1
     sites = tuple(r.det.sites)
     res["sets"]["interleavings"] = [common.digest8([sites, case["commands"]])] if sites else []
     res["sets"]["state_tuples"] = list({(h[4], h[5], h[6], h[7], h[2] != 0,
